@@ -340,3 +340,31 @@ def adt_literals(prog, fn, adt_suffix, with_children=True):
                 if 'd' in s and s['v']['r'] == 'agg' and s['v'].get('kind') == 'adt' and s['v']['adt'].endswith(adt_suffix):
                     out.add(s['v']['variant'])
     return out
+
+
+def resolve_const(fn, defs, op, depth=8):
+    """the constant operand an operand ultimately is (through single-definition moves / reborrows), or None"""
+    for _ in range(depth):
+        if op is None:
+            return None
+        if 'k' in op:
+            return op
+        p = op_place(op)
+        if p is None:
+            return None
+        ds = defs.get(p[0], [])
+        if len(ds) != 1 or ds[0][1] != 'assign':
+            return None
+        v = ds[0][2]
+        if v['r'] in ('use', 'cast'):
+            op = v['a']
+        elif v['r'] == 'ref':
+            op = {'c': v['p']}
+        else:
+            return None
+    return None
+
+
+def resolve_str(fn, defs, op):
+    c = resolve_const(fn, defs, op)
+    return str_const(c) if c else None
